@@ -8,7 +8,7 @@ from __future__ import annotations
 import ast
 from typing import List, Optional
 
-from ..absint import NONE, Const, Interp, Tup
+from ..absint import IdentityOfValues, NONE, Const, Interp, Tup
 from ..astutil import Defs
 from ..cfg import cfg_of, reaching_defs
 from ..core import AnalysisError, attr_chain, cshort, kwarg, short, walk_no_nested, walk_stmts
@@ -187,7 +187,13 @@ def _table_arith(ctx) -> None:
     dom = [None, "", "n", "m"]
     for a in dom:
         for b in dom:
-            st, r = I.call(g.qualname, [Const(a), Const(b)])
+            try:
+                st, r = I.call(g.qualname, [Const(a), Const(b)])
+            except IdentityOfValues as ex:
+                ctx.ob("d.table-table", g, f"cell:left={a!r},right={b!r}", False, "", g.node,
+                       message=f"_resolve_binary_name(left={a!r}, right={b!r}) compares the names by identity: {ex} - two equal names read "
+                               f"from different sources would count as different and the left name would be dropped")
+                continue
             want = a if (b is None or b == a) else None
             got = r.items[0].v if (st == "return" and isinstance(r, Tup) and isinstance(r.items[0], Const)) else "?"
             ok = st == "return" and got == want and (type(got) is type(want))
